@@ -214,6 +214,10 @@ func (h *harness) inspect(where string, c fox.Context, entry bool) *exp {
 	if got, want := c.RemoteIP().String(), remoteOf(e.tok); got != want {
 		h.fail("%s: RemoteIP() = %s, the request came from %s", pre, got, want)
 	}
+	// the router-wide resolver reads the request's remote address: whatever ClientIP answers belongs to this request
+	if ip, err := c.ClientIP(); err != nil || ip.String() != remoteOf(e.tok) {
+		h.fail("%s: ClientIP() = %v, %v; the configured resolver gives %s for this request", pre, ip, err, remoteOf(e.tok))
+	}
 	if got := c.Header("X-Tok"); got != e.tok {
 		h.fail("%s: Header(X-Tok) = %q, want %q", pre, got, e.tok)
 	}
@@ -326,6 +330,13 @@ func newHarness() (*harness, error) {
 		}
 	}
 	f, err := fox.New(
+		fox.WithClientIPResolver(fox.ClientIPResolverFunc(func(c fox.Context) (*net.IPAddr, error) {
+			host, _, err := net.SplitHostPort(c.Request().RemoteAddr)
+			if err != nil {
+				return nil, err
+			}
+			return &net.IPAddr{IP: net.ParseIP(host)}, nil
+		})),
 		fox.WithMiddleware(mw),
 		fox.WithNoRouteHandler(h.respond("no-route handler")),
 		fox.WithNoMethodHandler(h.respond("no-method handler")),
